@@ -94,9 +94,33 @@ class _VTime(object):
         return CURRENT.clock.now if CURRENT else REAL_TIME.time()
 
 
+class _DetUUID(object):
+    """Deterministic stand-in for the `uuid` module inside the storage backends, the bounce
+    renderer and the object-store double: ids decide the order of equal-timestamp timetable
+    entries, so they must come from the case's seed for a history to be replayable."""
+    import uuid as _real
+
+    @staticmethod
+    def uuid4():
+        import uuid
+        rng = CURRENT.idrnd if CURRENT else random
+        return uuid.UUID(int=rng.getrandbits(128), version=4)
+
+    def __getattr__(self, name):
+        import uuid
+        return getattr(uuid, name)
+
+
 def install_virtual_time():
     Q.time = _VTime
     Q.Event = VEvent
+    import sys
+    shim = _DetUUID()
+    for name in ('slimta.queue.dict', 'slimta.diskstorage', 'slimta.redisstorage', 'slimta.bounce',
+                 'vf.memstore'):
+        mod = sys.modules.get(name)
+        if mod is not None and hasattr(mod, 'uuid'):
+            mod.uuid = shim
 
 
 def marker(env):
@@ -299,6 +323,7 @@ class Lab(object):
         global CURRENT
         self.cfg = cfg
         self.rnd = random.Random(seed)
+        self.idrnd = random.Random('ids-%r' % (seed,))
         self.clock = Clock()
         self.events = []
         self.parked = []
@@ -324,13 +349,20 @@ class Lab(object):
     def _print_exception(self, context, t, v, tb):
         if CURRENT is not self or self.draining and self.closed:
             return
-        frames = traceback.extract_tb(tb)
-        inner = None
-        for f in frames:
-            if '/slimta/' in f.filename:
-                inner = f
-        where = '%s:%s' % (inner.filename.split('/slimta/')[-1], inner.name) if inner else '?'
+        frames = [f for f in traceback.extract_tb(tb) if '/slimta/' in f.filename]
+        def fr(f):
+            return '%s:%s' % (f.filename.split('/slimta/')[-1].replace('/__init__.py', '').replace('.py', ''), f.name)
+        if frames:
+            where = fr(frames[0]) if len(frames) == 1 or fr(frames[0]) == fr(frames[-1]) \
+                else fr(frames[0]) + '>' + fr(frames[-1])
+        else:
+            where = '?'
         sig = '%s@%s' % (getattr(t, '__name__', str(t)), where)
+        if where.startswith('queue:_dequeue') and issubclass(t, (OSError, KeyError)):
+            # a stale timetable entry for a message that has meanwhile been removed: the fetch
+            # fails and the entry is dropped -- harmless, not a diagnostic
+            self.log('benign_crash', sig)
+            return
         if 'unexpected relay exception' in str(v):
             return   # the Queue re-raises an unexpected relay exception by design after scheduling the retry
         self.crashes.append(sig)
@@ -381,6 +413,7 @@ class Lab(object):
     def build(self):
         cfg = self.cfg
         inner = self.make_backend()
+        install_virtual_time()
         yielding = cfg.get('backend', 'dict') != 'dict'
         self.store = StoreProbe(self, inner, self.native_wait,
                                 bool(cfg.get('synth_wait')) and not self.native_wait,
@@ -522,6 +555,14 @@ class Lab(object):
 
     def full_quiescence(self):
         return not self.parked
+
+    def pools_free(self):
+        """(free store-pool slots, free relay-pool slots); None = unbounded."""
+        out = []
+        for name in ('store_pool', 'relay_pool'):
+            p = getattr(self.queue, name, None)
+            out.append(p.free_count() if p is not None else None)
+        return tuple(out)
 
     # ---- teardown
     def close(self):
@@ -739,7 +780,7 @@ def _run(lab):
             lab.log('nosettle', step)
             return
         if lab.full_quiescence():
-            lab.log('fullq')
+            lab.log('fullq', lab.pools_free())
     # ---- end game: release everything, run every timer down
     lab.draining = True
     lab.log('drain_begin')
@@ -753,7 +794,7 @@ def _run(lab):
             lab.log('nosettle', 'drain')
             return
         if lab.full_quiescence():
-            lab.log('fullq')
+            lab.log('fullq', lab.pools_free())
     final = {}
     try:
         for ts, i in list(lab.inner.load()):
@@ -766,7 +807,7 @@ def _run(lab):
     except Exception as ex:
         lab.log('final_load_exc', type(ex).__name__, str(ex)[:80])
         final = None
-    lab.log('final', final, clock.next_deadline(), len(lab.parked))
+    lab.log('final', final, clock.next_deadline(), len(lab.parked), lab.pools_free())
 
 
 # =====================================================================================
@@ -902,12 +943,18 @@ def judge_c12(lab, H):
     due_seq = {}
     stored = set()
     known = set()
+    told = set()
     last_attempt_seq = {}
     active = set()
     flush_calls = {}
     flush_rets = set()
     last_flush_seq = -1
     waiting_at_flush = {}
+    all_flush_calls = {}
+    flush_ret_seq = {}
+    for seq, e in enumerate(lab.events):
+        if e[1] == 'flush_ret':
+            flush_ret_seq[e[2]] = seq
     for seq, e in enumerate(lab.events):
         t, k = e[0], e[1]
         if k == 'prepop':
@@ -923,6 +970,7 @@ def judge_c12(lab, H):
             due_seq[id] = seq
             stored.add(id)
             known.add(id)
+            told.add(id)
         elif k == 'store' and e[2] == 'set_timestamp':
             id = H.sid(e[3][0])
             due[id] = e[3][1]
@@ -932,23 +980,33 @@ def judge_c12(lab, H):
         elif k == 'store' and e[2] == 'wait':
             for ts, i in e[3]:
                 known.add(H.sid(i))
+                told.add(H.sid(i))
         elif k == 'store' and e[2] == 'load_entry':
             known.add(H.sid(e[3]))
+            told.add(H.sid(e[3]))
         elif k == 'attempt_start':
             m = e[2]
             id = H.sid(H.m2id.get(m)) if H.m2id.get(m) is not None else None
             active.add(m)
             if id is not None:
                 last_attempt_seq[id] = seq
-                if id in due and t < due[id] and last_flush_seq < due_seq[id]:
-                    out.append(('early', m, {'attempt_at': t, 'due': due[id], 'attempt': e}))
+                if id in due and t < due[id]:
+                    # excused by any flush whose execution may have followed the setting of
+                    # the due time: called before this attempt and returned (if at all) after it
+                    excused = any(c < seq and flush_ret_seq.get(n, 1 << 60) > due_seq[id]
+                                  for n, (c, fq) in all_flush_calls.items())
+                    if not excused:
+                        out.append(('early', m, {'attempt_at': t, 'due': due[id], 'attempt': e}))
         elif k == 'attempt_end':
             active.discard(e[2])
         elif k == 'flush_call':
             flush_calls[e[2]] = (seq, e[3])
+            all_flush_calls[e[2]] = (seq, e[3])
             last_flush_seq = seq
             if e[3]:
-                waiting_at_flush[e[2]] = [i for i in stored & known
+                # "waiting" = the queue has actually been told about the id by now (its own
+                # write, a start-up load entry, a wait() announcement), not merely stored
+                waiting_at_flush[e[2]] = [i for i in stored & told
                                           if H.id2m.get(i) not in active]
         elif k == 'flush_ret':
             flush_rets.add(e[2])
